@@ -29,6 +29,7 @@ def WF : LTy → Prop
   | .int b => b = 1 ∨ b = 2 ∨ b = 4 ∨ b = 8 ∨ b = 16
   | .bool => True
   | .ptr => True
+  | .ptr32 => True
   | .arr _ t => WF t
   | .struct ms => WFs ms
 def WFs : LTys → Prop
@@ -42,6 +43,7 @@ theorem alignOf_pos (t : LTy) (h : WF t) : 0 < alignOf t := by
   | int b => simp only [alignOf]; simp only [WF] at h; omega
   | bool => simp [alignOf]
   | ptr => simp [alignOf]
+  | ptr32 => simp [alignOf]
   | arr n t => simp only [alignOf]; exact alignOf_pos t (by simpa [WF] using h)
   | struct ms => simp only [alignOf]; exact alignMax_pos ms
 theorem alignMax_pos (ms : LTys) : 0 < alignMax ms := by
@@ -59,6 +61,7 @@ theorem align_dvd_size (t : LTy) (h : WF t) : alignOf t ∣ sizeOf t := by
     rcases h with rfl | rfl | rfl | rfl | rfl <;> simp [alignOf, sizeOf] <;> decide
   | bool => simp [alignOf, sizeOf]
   | ptr => simp [alignOf, sizeOf]
+  | ptr32 => simp [alignOf, sizeOf]
   | arr n t =>
     simp only [alignOf, sizeOf]
     exact Nat.dvd_trans (align_dvd_size t (by simpa [WF] using h)) (Nat.dvd_mul_left _ _)
